@@ -33,8 +33,21 @@ def impl_obs(h: C.Hierarchy, s, t):
     _SHARE["n"] += 1
     memo = {} if _SHARE["n"] % 2 else None      # every other pair shares equal subterm objects
     S, T = h.inst(s, memo), h.inst(t, memo)
-    return [enc(S.is_subtype(T)), enc(S.is_subtype(T, strict=True)),
-            enc(S.match(T, subtype=True)), enc(S.match(T))]
+    res = [enc(S.is_subtype(T)), enc(S.is_subtype(T, strict=True)),
+           enc(S.match(T, subtype=True)), enc(S.match(T))]
+    # a base type can also be written as the bare operator (Type.is_subtype is
+    # defined on every Type): every spelling must give the same answer
+    Ss = [S] + ([h.ops[s[0]]] if not s[1] else [])
+    Ts = [T] + ([h.ops[t[0]]] if not t[1] else [])
+    for S2 in Ss:
+        for T2 in Ts:
+            if S2 is S and T2 is T:
+                continue
+            alt = [enc(S2.is_subtype(T2)), enc(S2.is_subtype(T2, strict=True))]
+            if alt != res[:2]:
+                res[:2] = alt
+                _SHARE["spelling"] = (type(S2).__name__, type(T2).__name__)
+    return res
 
 
 def related(h: C.Hierarchy, a: int, b: int) -> bool:
